@@ -152,6 +152,7 @@ func (w *World) verifyFunction(c *Contract) (res *FuncResult) {
 		}
 	}
 	vc.frameObligations(c, args, out)
+	vc.dispatchObligations(fr, c)
 	// per-label solver budgets apply to every obligation that stems from a clause with that label
 	for lab, secs := range c.Raw.Slow {
 		for _, o := range vc.obls {
@@ -670,4 +671,75 @@ func (vc *VC) splitByProfile(c *Contract, cl *Clause, args []Val, subs []*SubGoa
 		ss = append(ss, &SubGoal{Prefix: sg.Prefix, Cond: and(sg.Cond, not(or(rowConds...))), Goal: sg.Goal, Extra: vc.rvTableAxioms(-1)})
 	}
 	vc.obligeSubs("table", "unlisted", ss, len(ss) == 0, vc.fn.Pos(), props)
+}
+
+// dispatchObligations: `loop N dispatches f g ...` - every iteration of loop N
+// (every path from the loop header back to it) calls one of the named
+// functions.  Decided on the control-flow graph: blocks that contain such a
+// call are barriers; the obligation fails if a back edge is reachable from the
+// header without crossing one.
+func (vc *VC) dispatchObligations(fr *Frame, c *Contract) {
+	for _, cl := range vc.clauses(c) {
+		if cl.Raw.Kind != "dispatches" {
+			continue
+		}
+		names := map[string]bool{}
+		for _, n := range strings.Fields(strings.ReplaceAll(cl.Raw.Text, ",", " ")) {
+			names[n] = true
+		}
+		var li *loopInfo
+		for _, l := range fr.loops {
+			if l.ordinal == cl.Raw.Loop {
+				li = l
+			}
+		}
+		o := &Obligation{Name: fmt.Sprintf("%s#dispatch.%d", vc.fnName(), cl.Raw.Loop), Kind: "dispatch", Fn: vc.fnName(), Props: vc.clauseProps(c, cl), Expect: "unsat", Solver: "ground", Status: "unsat", Goal: "true", Cond: "true"}
+		if li == nil {
+			o.Status, o.Output = "sat", fmt.Sprintf("loop %d not found", cl.Raw.Loop)
+			vc.obls = append(vc.obls, o)
+			continue
+		}
+		o.Pos = vc.w.Fset.Position(li.header.Instrs[0].Pos()).String()
+		barrier := func(b *ssa.BasicBlock) bool {
+			for _, instr := range b.Instrs {
+				if call, ok := instr.(ssa.CallInstruction); ok {
+					if f := call.Common().StaticCallee(); f != nil && names[f.Name()] {
+						return true
+					}
+				}
+			}
+			return false
+		}
+		seen := map[*ssa.BasicBlock]bool{li.header: true}
+		work := []*ssa.BasicBlock{li.header}
+		for len(work) > 0 && o.Status == "unsat" {
+			b := work[len(work)-1]
+			work = work[:len(work)-1]
+			if barrier(b) {
+				continue
+			}
+			for _, s := range b.Succs {
+				if s == li.header {
+					o.Status = "sat"
+					o.Model = fmt.Sprintf("an iteration of the loop can return to its header through block %d (%s) without calling any of %s", b.Index, vc.w.Fset.Position(lastPos(b)).String(), cl.Raw.Text)
+					o.Output = o.Model
+					break
+				}
+				if li.blocks[s] && !seen[s] {
+					seen[s] = true
+					work = append(work, s)
+				}
+			}
+		}
+		vc.obls = append(vc.obls, o)
+	}
+}
+
+func lastPos(b *ssa.BasicBlock) token.Pos {
+	for i := len(b.Instrs) - 1; i >= 0; i-- {
+		if p := b.Instrs[i].Pos(); p.IsValid() {
+			return p
+		}
+	}
+	return token.NoPos
 }
